@@ -12,6 +12,7 @@ import (
 )
 
 const findingF03 = "F03-unary-last-binary"
+const f03PerTable = 20
 
 // f03Op is the prefix operator that is also the LAST binary operator of the table ("" if none).
 func (t *table) f03Op() string {
@@ -78,6 +79,7 @@ type checker struct {
 	st  layoutStats
 
 	nSample int
+	f03Hits int // panics of this table classified as F03 so far
 }
 
 type result uint8
@@ -107,6 +109,12 @@ func (c *checker) eval(ts []tok, want *gx.Node, blank bool, kind string, primary
 			return resViolation
 		}
 	}
+	if c.f03Hits >= f03PerTable && f03Matches(t, ts) {
+		// Every input of this class panics the same way, and every panicking Parse strands its
+		// tokenizer goroutine for good: after enough witnesses the class is counted, not executed.
+		ctx.Add("inputs_in_class_F03_not_executed_after_20_hits_per_table", 1)
+		return resF03
+	}
 	ctx.Begin(func() map[string]any { return t.repro(src, ts) })
 	ctx.Eval()
 	ast, err, pan := safeParse(c.p, src)
@@ -122,6 +130,7 @@ func (c *checker) eval(ts []tok, want *gx.Node, blank bool, kind string, primary
 		}
 		ctx.Violate("Parse panicked", t.repro(src, ts), exp, "panic: "+pan, finding)
 		if finding != "" {
+			c.f03Hits++
 			return resF03
 		}
 		return resViolation
